@@ -64,6 +64,22 @@ Entry obs_manifold(const std::string& op, const Manifold& m) {
     return e;
   }
   e.exact = "st" + std::to_string((int)st) + " nq" + std::to_string(m.NumProp()) + " empty" + std::to_string((int)m.IsEmpty());
+  {
+    // Provenance that does not depend on forcing order: which originals (rank-renamed) the runs name,
+    // with their flags. A mesh ID without a relation entry shows up here as an extra run / ID -1.
+    MeshGL64 g = m.GetMeshGL64();
+    std::vector<uint32_t> ids = g.runOriginalID, sorted = ids;
+    std::sort(sorted.begin(), sorted.end());
+    sorted.erase(std::unique(sorted.begin(), sorted.end()), sorted.end());
+    e.exact += " runs" + std::to_string(ids.size()) + ":";
+    std::vector<std::string> desc;  // as a multiset: instances of one original are ordered by mesh ID, which depends on evaluation order
+    for (size_t i = 0; i < ids.size(); i++) {
+      uint32_t rank = (uint32_t)(std::lower_bound(sorted.begin(), sorted.end(), ids[i]) - sorted.begin());
+      desc.push_back((ids[i] == 0xffffffffu ? std::string("X") : std::to_string(rank)) + (i < g.runFlags.size() ? (g.runFlags[i] & 1 ? "b" : "f") : "?"));
+    }
+    std::sort(desc.begin(), desc.end());
+    for (auto& d : desc) e.exact += d + ",";
+  }
   Box b = m.BoundingBox();
   e.solid = {m.Volume(), m.SurfaceArea()};
   if (b.IsFinite())
